@@ -22,7 +22,7 @@ import z3
 from . import core
 from .contracts import SPECFNS
 from .core import CLASSES, NIL, NONE, Val, cls_of, fresh, mk_ref, subclass
-from .symex import TV, Frame, PyClass, Unsupported, const_tv, py, tv_none
+from .symex import TV, Frame, PyClass, PyRaise, Unsupported, const_tv, py, tv_none
 
 _PARSE_CACHE = {}
 
@@ -103,6 +103,11 @@ class SpecEval:
         return self.run.as_int(tv)
 
     def addr_of(self, tv):
+        # a location named in a contract (modifies / protect): evaluating it must not ASSUME
+        # that the value is an object (as_addr would, A-WD); a value that is not an object names
+        # no location at all (address -7 is never allocated: objects >= 0, classes <= -1000)
+        if tv.k == "val" and self.run.tag(tv) is None:
+            return z3.If(Val.is_ref(tv.r), Val.a(tv.r), z3.IntVal(-7))
         return self.run.as_addr(tv)
 
 
@@ -160,7 +165,17 @@ class SpecMixin:
                 a = z3.simplify(self.truthy(self.eval(n.args[0], frame)))
                 if z3.is_false(a):
                     return TV("bool", z3.BoolVal(True))
-                b = self.truthy(self.eval(n.args[1], frame))
+                try:
+                    b = self.truthy(self.eval(n.args[1], frame))
+                except (PyRaise, Unsupported) as e:
+                    # the consequent is not even defined here (e.g. it reads an attribute that the
+                    # path condition says is absent, or a local that was never bound on this path):
+                    # fine if the antecedent cannot hold on this path
+                    if isinstance(e, Unsupported) and "unresolved name" not in str(e):
+                        raise
+                    if self.entails(z3.Not(a)):
+                        return TV("bool", z3.BoolVal(True))
+                    raise
                 return TV("bool", z3.Implies(a, b))
             if nm == "iff":
                 a = self.truthy(self.eval(n.args[0], frame))
